@@ -99,14 +99,18 @@ def direct_checks(ctx, th, label, case):
                 bad = "csq != dp/de"
             else:
                 # reported derivatives vs central differences (away from the junctions)
-                h = 1e-5 * T
+                # central differences with a small step: inside the table p is a cubic
+                # spline, so across a knot the difference quotient of dp is off by about
+                # h/4 times the jump of the third derivative (seen as a false alarm at
+                # h = 1e-5 T on a noisy non-paranoid table); rounding costs ~1e-16 |p| / h.
+                h = 1e-6 * T
                 if min(abs(T - lo), abs(T - hi)) > 2 * h:
                     d1 = (float(p(T + h)) - float(p(T - h))) / (2 * h)
                     d2 = (float(dp(T + h)) - float(dp(T - h))) / (2 * h)
-                    if abs(d1 - vals["dp"]) > 1e-6 * abs(vals["dp"]) + 1e-9 * sc / T:
+                    if abs(d1 - vals["dp"]) > 3e-6 * abs(vals["dp"]) + 1e-9 * sc / T:
                         bad = "dp is not the derivative of p"
-                    elif abs(d2 - vals["ddp"]) > 1e-6 * abs(vals["ddp"]) + \
-                            1e-9 * sc / T ** 2:
+                    elif abs(d2 - vals["ddp"]) > 3e-6 * abs(vals["ddp"]) + \
+                            1e-8 * sc / T ** 2:
                         bad = "ddp is not the derivative of dp"
             if bad:
                 ok = False
